@@ -1038,6 +1038,30 @@ def install(extra_modules=(), net=True):
     _rt.Thread.is_alive = _patched_is_alive
 
 
+def enable_line_yields(funcs):
+    """Make every source line of the given functions a scheduling point (for managed threads):
+    line-granularity interleavings inside named functions, on top of the synchronisation-level ones.
+    Call inside the scenario (child process), before the threads of interest start."""
+    codes = set()
+    for f in funcs:
+        f = getattr(f, "__func__", f)
+        codes.add(f.__code__)
+
+    def local(frame, event, arg):
+        if event == "line":
+            s = SCHED
+            if s is not None and s.managed() and s.me() is s.current:
+                s.yield_point(("line", frame.f_code.co_name, frame.f_lineno))
+        return local
+
+    def tracer(frame, event, arg):
+        if frame.f_code in codes:
+            return local
+        return None
+    sys.settrace(tracer)
+    _rt.settrace(tracer)
+
+
 def new_scheduler(**kw):
     global SCHED
     FakeNet.reset()
